@@ -77,6 +77,8 @@ def run_cases(cases, variant="plain", binary=None, cpu_s=None, as_bytes=None,
     """
     if binary is None:
         binary = os.path.join(TARGET, VARIANTS[variant][2])
+    if as_bytes is None and variant == "plain":
+        as_bytes = 8 << 30   # a runaway allocation must kill the driver, not the machine
     d = tmpdir("vd")
     results = {}
     remaining = list(cases)
